@@ -494,6 +494,18 @@ def step (line : String) : String :=
     match parseCfg cs, parseNatList ks, parseCVList (if vs == "-" then "" else vs), parseName sp with
     | some c, some ks, some vs, some sp => (Con.getattr c (ks, vs) sp).render
     | _, _, _, _ => "bad-op"
+  | ["srckw", cs, items] =>
+    -- keyword blades through the *translated* keyword branch of MultiVector.__new__ (names back to binary keys)
+    match parseCfg cs, (if items.startsWith "I:" then parsePairs parseName (items.drop 2).toString else none) with
+    | some c, some (its : List (List Nat × CV)) =>
+      let a := SrcEq.algOf c
+      match Src.mv_new_keywords a (its.map fun p => (SrcEq.pyName p.1, p.2)) with
+      | .ok (names, vals) =>
+        match names.mapM (fun n => Py.dictGet a.canon2bin n) with
+        | .ok ks => "ok keys=" ++ joinC (ks.map toString) ++ " values=" ++ joinC (vals.map CV.render)
+        | .error e => "raise:" ++ e
+      | .error e => "raise:" ++ e
+    | _, _ => "bad-op"
   | ["srcgetattr", cs, ks, vs, sp] =>
     -- the same access through the *translated* MultiVector.__getattr__
     match parseCfg cs, parseNatList ks, parseCVList (if vs == "-" then "" else vs), parseName sp with
